@@ -1,29 +1,22 @@
-"""Table of property checks: which harness binaries/tests decide each property."""
+"""Table of property checks, assembled from one fragment per property in checks_d/<ID>.py.
 
-COMMON_ASSUME = [
-    "Go 1.26 toolchain (testing/synctest virtual clock) is faithful to real timer semantics",
-    "harness environment model (in-memory integer files behind the util.VerifFileOp seam, fan device model) is faithful to sysfs",
-]
+A fragment defines ID and CHECK = {title, level, technique, rule, assumptions, level_text, level_note,
+runs: [{pkg, test, shards_quick, shards_thorough, [race], [env], [timeout_quick], [timeout_thorough], [gomaxprocs]}],
+[needs_cli], [crash_is_violation]}.
+"""
+import glob
+import importlib.util
+import os
 
 HOOK_COMMITS = ["1a5e1e8"]
 
+# properties deliberately not claimed, with the reason (kept in MANIFEST.not_applicable)
 NOT_APPLICABLE = {}
 
-CHECKS = {
-    "C12": {
-        "title": "The fan receives the nearest value it supports",
-        "level": "exploration",
-        "technique": "exhaustive enumeration of all PWM maps over a key universe x all requests, real code vs reference",
-        "rule": "every non-empty sub-map of a fixed key universe (8 keys quick / 12 keys thorough) with outputs from a 3-value alphabet "
-                "x every request -50..305 through the real ExtractKeysWithDistinctValues+FindClosest; plus every such map over a 6-key "
-                "universe and identity/README/quantiser full-size maps through the real controller updateDistinctPwmValues+setPwm on a "
-                "recording fan. distinct_nontrivial = (map,request) pairs where the request is not itself a supported input and the map "
-                "has more than one supported input (pairs are enumerated without repetition).",
-        "assumptions": ["reference definition of 'supported input' = first key of each run of equal outputs in key order"],
-        "level_text": "complete enumeration of a finite input space (all maps over a small key universe x all requests) on the real functions, compared with an independent reference; full-size maps only for three representative maps",
-        "level_note": "bounded: key universes of 8/12 keys and a 3-value output alphabet; binary-search behaviour depends only on the order structure of keys, which these universes cover (adjacent keys, even/odd gaps, range ends)",
-        "runs": [
-            {"pkg": "internal/util", "test": "TestVX_C12a", "shards_quick": 4, "shards_thorough": 16},
-        ],
-    },
-}
+CHECKS = {}
+_d = os.path.join(os.path.dirname(os.path.abspath(__file__)), "checks_d")
+for _f in sorted(glob.glob(os.path.join(_d, "C*.py"))):
+    _spec = importlib.util.spec_from_file_location("checks_d_" + os.path.basename(_f)[:-3], _f)
+    _m = importlib.util.module_from_spec(_spec)
+    _spec.loader.exec_module(_m)
+    CHECKS[_m.ID] = _m.CHECK
